@@ -358,6 +358,49 @@ func c12prop(ev *evid.Rec) func(rt *rapid.T) {
 					delete(ch.members, c.idx)
 					verify("leave", memberLines(ch, fmt.Sprintf("118 chat=%x user=%x", ch.id, hlref.BE16(c.id))))
 				},
+				"leaveNotAMember": func(rt *rapid.T) {
+					// a leave request from someone who is not in the chat (never was, only invited, or left already):
+					// whatever the server tells the members about it, the membership must not change - the steps that
+					// follow verify that every line still reaches exactly the members
+					ch := pickChat("chat", func(ch *c12chat) bool { return len(ch.members) > 0 })
+					if ch == nil {
+						rt.Skip()
+					}
+					c := pick("who", func(o *c12client) bool { return o.connected && !ch.members[o.idx] })
+					if c == nil {
+						rt.Skip()
+					}
+					history = append(history, fmt.Sprintf("leave-not-a-member %d chat%d (%d members)", c.idx, chatIndex(chats, ch), len(ch.members)))
+					c.conn.Request(hlref.TranLeaveChat, fld(hlref.FChatID, []byte(ch.id)))
+					for _, o := range connected() {
+						n := 0
+						for _, t := range o.conn.TakeInbox() {
+							if chatRelevant(t) {
+								id, _ := t.Get(hlref.FChatID)
+								if !ch.members[o.idx] || t.Type != hlref.TranNotifyChatDeleteUser || string(id) != ch.id {
+									fail("leave by non-member %d of chat%d: client %d (member: %v) received %s", c.idx, chatIndex(chats, ch), o.idx, ch.members[o.idx], chatNorm(t))
+								}
+								n++
+							}
+						}
+						if n > 1 {
+							fail("leave by non-member %d of chat%d: client %d received %d notices", c.idx, chatIndex(chats, ch), o.idx, n)
+						}
+					}
+					// the very next thing: a line by a member must reach all members
+					var sender *c12client
+					for _, o := range connected() {
+						if ch.members[o.idx] && o.send {
+							sender = o
+							break
+						}
+					}
+					if sender != nil {
+						msg := []byte(fmt.Sprintf("after-foreign-leave-%d", len(history)))
+						sender.conn.Request(hlref.TranChatSend, fld(hlref.FData, msg), fld(hlref.FChatID, []byte(ch.id)))
+						verify("line after a leave by a non-member", memberLines(ch, fmt.Sprintf("106 chat=%x text=%q", ch.id, chatLine(sender.name, msg, false))))
+					}
+				},
 				"decline": func(rt *rapid.T) {
 					ch := pickChat("chat", func(ch *c12chat) bool { return true })
 					if ch == nil {
